@@ -322,6 +322,39 @@ class C01(Prop):
                 d2["attrs"] = [a for a in d2["attrs"] if a["n"] != victim]
                 out2 = obj.get_html_string(g["indent"], g["eol"])
                 recs.append({"tree": d2, "events": tokenize(out2), "gen": dict(g, second=True)})
+            txt = lambda s: {"k": "text", "name": "", "attrs": [], "c": [], "t": cps(s)}
+            if g["salt"] % 4 == 1 and isinstance(obj, H.Tag) and obj.name not in ("script", "style") and not (
+                    obj.name in gamma.VOID_NAMES and not described["c"]):
+                # a rendering that FAILED (an un-expanded object among the children), the tree repaired in place, the same
+                # objects rendered again: an ordinary tree, whatever happened before
+                obj.append(gamma.Tfy(lambda: "never expanded"))
+                try:
+                    obj.get_html_string(g["indent"], g["eol"])
+                    failed = False
+                except RuntimeError:
+                    failed = True
+                obj.children.pop()
+                if failed:
+                    recs.append({"tree": described, "events": tokenize(obj.get_html_string(g["indent"], g["eol"])), "gen": dict(g, second="repaired")})
+            elif g["salt"] % 4 == 2 and isinstance(obj, H.Tag):
+                # an element built from a lone TagList does not become an alias of that list
+                lst = H.TagList(obj, "kept <&>")
+                w = H.Tag("section", lst, {"id": "w"})
+                w2 = H.tags.article(w.children)
+                lst.append("later 1")
+                w.append("own <text>")
+                w2.insert(0, "only in w2")
+                dw = {"k": "tag", "name": "section", "attrs": [{"n": "id", "v": cps("w")}],
+                      "c": [described, txt("kept <&>"), txt("own <text>")], "t": []}
+                recs.append({"tree": dw, "events": tokenize(w.get_html_string(g["indent"], g["eol"])), "gen": dict(g, second="lent")})
+            elif g["salt"] % 4 == 3 and isinstance(obj, H.Tag) and obj.name not in ("script", "style"):
+                import copy as _copy
+                d3 = _copy.deepcopy(described)
+                str(obj)
+                obj.append("added <&> later")
+                obj.insert(0, H.tags.b("first"))
+                d3["c"] = [{"k": "tag", "name": "b", "attrs": [], "c": [txt("first")], "t": []}] + d3["c"] + [txt("added <&> later")]
+                recs.append({"tree": d3, "events": tokenize(obj.get_html_string(g["indent"], g["eol"])), "gen": dict(g, second="grown")})
             return recs
         else:
             nm = g["name"]
